@@ -280,6 +280,9 @@ def classify_value(v):
                 if all(x.is_Rational for x in vals):
                     lo, hi = min(vals), max(vals)
                     out.update(lo=f"{int(lo.p)}/{int(lo.q)}", hi=f"{int(hi.p)}/{int(hi.q)}")
+            terms = [(sympy.nsimplify(c), mon) for mon, c in pol.terms()]
+            if all(c.is_Rational for c, _ in terms):
+                out["terms"] = [[f"{int(c.p)}/{int(c.q)}", [int(e) for e in mon]] for c, mon in terms]
         except Exception:
             pass
         return out
@@ -530,6 +533,36 @@ def job_analyze(job):
     res["defective"] = sorted(str(v) for v in program.defective_variables)
     res["abstracted"] = {str(k): str(v) for k, v in program.abstracted_const_store.items()}
     res["original_loop_guard"] = str(program.original_loop_guard)
+    if "abstractions" in want and program.abstracted_const_store:
+        # normalized program in which every abstraction draw  _aK = Bernoulli(_probK)  is replaced by the indicator
+        # of the condition that _probK stands for (observation: where the draw sits and what it abstracts)
+        try:
+            vs, _ = program_symbols(program)
+            outs = []
+            for pt in points:
+                ex = Exporter(vs, pt, dparam)
+                sites = []
+
+                def block(stmts, where):
+                    out = []
+                    for st in stmts:
+                        d = getattr(st, "distribution", None)
+                        prob = getattr(d, "p", None) if type(d).__name__ == "Bernoulli" else None
+                        if prob is not None and prob in program.abstracted_const_store and type(st.condition).__name__ == "TrueCond":
+                            a = str(st.variable)
+                            c = ex.cond(program.abstracted_const_store[prob])
+                            sites.append({"where": where, "index": len(out), "var": a, "prob": str(prob)})
+                            out.append(["if", [c], [[["assign", a, [["1", [["1", []]]]], ["true"], a]]],
+                                        [["assign", a, [["1", []]], ["true"], a]]])
+                        else:
+                            out += ex.stmts([st])
+                    return out
+                P = {"vars": ex.vars, "s0": {v: ex.scalar(sympy.Symbol(v + "0")) for v in ex.vars if sympy.Symbol(v + "0") in ex.point},
+                     "init": block(program.initial, "init"), "guard": ex.cond(program.loop_guard), "body": block(program.loop_body, "body")}
+                outs.append({"prog": P, "sites": sites})
+            res["abstractions"] = outs
+        except Unsupported as ex_:
+            res["abstractions_unsupported"] = str(ex_)
 
     # ---- goals
     cli_args = Namespace(solvability_check=bool(job.get("solvability_check")), at_n=-1, after_loop=False)
